@@ -738,6 +738,28 @@ theorem new_fresh_unchanged (s : State) (h : Inv s) (natoms : Option Int) (atype
   obtain ⟨_, hf, hfr, _, _⟩ := this.2 o' rfl
   exact frame_fresh_meaning s s' h o' hf hfr
 
+/-! ## refinement: `extend` -/
+
+/-- **refines (`atoms.extend(other)`)** — in a state satisfying the invariant a returning `extend` yields a
+    new object `nw` (the next id) in fresh buffers, leaves everything that existed untouched, and every
+    column `p'` of `nw` is described by `ExtColRes`: base rows = self's column of that name at the
+    positions `[0..n-1, 0, …, 0]` (or zeros of the donor's dtype/shape for a donor-only property), then
+    rows `[self.natoms:]` overwritten by the donor's column of that name (or zeros of self's dtype/shape
+    when the donor has none), broadcast and cast to the column's dtype. -/
+theorem refines_extend (s : State) (h : Inv s) (o donor : Nat) (ho : o < s.objs.length) (hd : donor < s.objs.length)
+    (nw : Nat) (s' : State) (hrun : extendWith o donor s = (.ok nw, s')) :
+    ∃ sel, resolve (s.obj o).natoms (.list ((List.range (s.obj o).natoms).map (fun (i : Nat) => (i : Int)) ++
+        List.replicate (s.obj donor).natoms (0 : Int))) = .ok sel ∧
+      nw = s.objs.length ∧ FrameOK s.heap.length s.objs.length s s' ∧ FreshObj s.heap.length nw s' ∧
+      ∀ p' ∈ (s'.obj nw).props,
+        ExtColRes s o donor sel (tailSel ((s.obj o).natoms + (s.obj donor).natoms) (s.obj o).natoms)
+          ((s.obj o).natoms + (s.obj donor).natoms) (s.obj donor).natoms s' p' := by
+  obtain ⟨⟨κ, hinv⟩, hb⟩ := h
+  have := extendWith_refines hinv o donor (hb o ho) ho hd (hb donor hd).1
+  unfold Post at this
+  rw [hrun] at this
+  exact this nw rfl
+
 /-! ## System-level accessors delegate to the Atoms-level ones -/
 
 /-- `System.atoms_prop` without `scale`, `atoms_ix[...] = …` are the `Atoms` operations on the system's
